@@ -2,6 +2,19 @@
   C15 — list construction, traversal, conversion and indexing are consistent.
   Reference model: an element sequence `xs` and a tail `t` that is not a pair (a pair tail merges
   into the chain: `append_merge`).  Every theorem is for all `xs`, `t`, indices and keys.
+
+  The implementations themselves (LexprModel/ConsOps.lean: `Value::append` as written with
+  `set_cdr` / `cdr_mut` / `as_cons_mut().unwrap()`, the `to_vec` / `into_vec` loops with their
+  `unreachable!()`, the iterator state machines with `peek` / `peek_mut` / `is_empty`, the
+  mutators `set_car` / `set_cdr` / `car_mut` / `cdr_mut` / `into_pair`, and the hand-written
+  `Clone` / `PartialEq` loops of `Cons` and of a datum's span information) are proved against the
+  functional definitions used below in LexprModel/Proofs/ConsOps*.lean (they import this file; built and
+  audited with this property as module Proofs.ConsOpsAll; namespace Lexpr.ConsOps): `appendImpl_eq`, `toVec_impl_eq`, `intoVec_impl_eq`,
+  `clone_eq` (the clone is the value itself, no panic site reachable), `eqLoop_iff` (the hand-written
+  `==` is the structural comparison, IEEE on floats), `setCarAt_ref` / `setCdrAt_ref` and
+  `after_setCar_*` / `after_setCdr_*` (what every traversal of this file sees after a store into
+  cell i), `iter_peek_next`, `intoIter_peek_next`, `listIter_isEmpty_iff`, `script_*` (arbitrary
+  scripts of stores and observations).  Tie: the `clone`, `dclone` and `consmut` operations.
 -/
 import LexprModel.ListOps
 namespace Lexpr
